@@ -1786,15 +1786,20 @@ func TestVerifConc(t *testing.T) {
 				if ac.settle(10 * time.Second) {
 					ac.s.m.Lock()
 					f := ac.s.h.Current().feed
+					/* everything the thread holds besides the opened post, wherever the cursor stands by now (a key that
+					   came late may have moved it) */
 					above = 0
 					for d := -1; d >= -50 && f.Contains(d); d-- {
+						above++
+					}
+					for d := 1; d <= 50 && f.Contains(d); d++ {
 						above++
 					}
 					ac.s.m.Unlock()
 				}
 			}
 			if opened {
-				out.Emit(verifkit.M{"ev": "atomic", "sid": sid, "scenario": "cursor keys while the ancestors of the page wait for their author", "what": "items above the opened post", "expected": 2, "observed": above})
+				out.Emit(verifkit.M{"ev": "atomic", "sid": sid, "scenario": "cursor keys while the ancestors of the page wait for their author", "what": "items of the thread besides the one the cursor is on (two ancestors and the opened post)", "expected": 2, "observed": above})
 			}
 		}
 		if sid%3 == 1 {
